@@ -13,6 +13,42 @@ func init() {
 	verifHarnesses["HarnessC16DialTCP"] = HarnessC16DialTCP
 }
 
+// c16Frame builds a well-formed frame with symbolic fields; kind selects the service type.
+func c16Frame(kind int) (ServicePackable, []byte) {
+	var v ServicePackable
+	switch kind % 5 {
+	case 4:
+		v = &TunnelReq{Channel: nondetU8(), SeqNumber: nondetU8(), Payload: c02Cemi(9, 0, 3)} // L_Busmon.ind
+	case 0:
+		v = &TunnelRes{Channel: nondetU8(), SeqNumber: nondetU8(), Status: ErrCode(nondetU8())}
+	case 1:
+		v = &ConnStateRes{Channel: nondetU8(), Status: ErrCode(nondetU8())}
+	case 2:
+		v = &DiscReq{Channel: nondetU8(), Status: nondetU8(), Control: c02HostInfo()}
+	default:
+		v = &TunnelReq{Channel: nondetU8(), SeqNumber: nondetU8(), Payload: c02Cemi(2, 0, 2)}
+	}
+	return v, AllocAndPack(v)
+}
+
+func c16Same(want ServicePackable, got Service) bool {
+	switch x := want.(type) {
+	case *TunnelRes:
+		y, ok := got.(*TunnelRes)
+		return ok && *x == *y
+	case *ConnStateRes:
+		y, ok := got.(*ConnStateRes)
+		return ok && *x == *y
+	case *DiscReq:
+		y, ok := got.(*DiscReq)
+		return ok && *x == *y
+	case *TunnelReq:
+		y, ok := got.(*TunnelReq)
+		return ok && x.Channel == y.Channel && x.SeqNumber == y.SeqNumber && c02CemiEqual(x.Payload, y.Payload)
+	}
+	return false
+}
+
 // HarnessC16DialUDP: a = {datagrams K, first kind, first datagram: 0 none | 1 empty | 2 from a foreign
 // sender (host/port symbolic) | 3 arbitrary bytes (8)}: every well-formed datagram from the peer
 // surfaces once and in order, others are skipped; Send writes one datagram of exactly Size bytes;
